@@ -283,7 +283,9 @@ class WebSocket:  # pragma: no cover
         event = await self.asgi_receive()
         if event['type'] != 'websocket.receive':
             raise OSError()
-        return event.get('bytes') or event.get('text')
+        # (an empty binary frame is a message, not the end of the stream)
+        data = event.get('bytes')
+        return data if data is not None else event.get('text')
 
 
 _async = {
